@@ -140,6 +140,52 @@ def swap_if_else(src: str) -> tuple[str, int]:
     return ast.unparse(tree) + "\n", tr.count
 
 
+class _ExtractTest(ast.NodeTransformer):
+    """`if <test>: …` -> `_tv_N = <test>` ; `if _tv_N: …` for plain ifs (not elif arms) with a compound test"""
+
+    def __init__(self, every=2):
+        self.i = 0
+        self.every = every
+        self.count = 0
+
+    def _rewrite_block(self, stmts):
+        out = []
+        for st in stmts:
+            st = self.visit(st)
+            if isinstance(st, ast.If) and isinstance(st.test, (ast.Compare, ast.BoolOp, ast.UnaryOp, ast.Call)) \
+                    and not any(isinstance(x, (ast.NamedExpr, ast.Await, ast.Yield)) for x in ast.walk(st.test)):
+                self.i += 1
+                if self.i % self.every == 0:
+                    self.count += 1
+                    name = f"_tv_{self.count}"
+                    out.append(ast.Assign(targets=[ast.Name(id=name, ctx=ast.Store())], value=st.test, lineno=st.lineno, col_offset=st.col_offset))
+                    st = ast.If(test=ast.Name(id=name, ctx=ast.Load()), body=st.body, orelse=st.orelse)
+            out.append(st)
+        return out
+
+    def generic_visit(self, node):
+        for fld in ("body", "orelse", "finalbody"):
+            seq = getattr(node, fld, None)
+            if isinstance(seq, list) and seq and isinstance(seq[0], ast.stmt):
+                if fld == "orelse" and isinstance(node, ast.If) and len(seq) == 1 and isinstance(seq[0], ast.If):
+                    setattr(node, fld, [self.visit(seq[0])])  # keep elif chains intact
+                else:
+                    setattr(node, fld, self._rewrite_block(seq))
+        for fld in ("handlers", "cases"):
+            seq = getattr(node, fld, None)
+            if isinstance(seq, list):
+                for h in seq:
+                    self.visit(h)
+        return node
+
+
+def extract_tests(src: str) -> tuple[str, int]:
+    tree = ast.parse(src)
+    tr = _ExtractTest()
+    tree = ast.fix_missing_locations(tr.visit(tree))
+    return ast.unparse(tree) + "\n", tr.count
+
+
 def unparse_only(src: str) -> str:
     """normalise formatting through ast.unparse (quotes, parentheses, line breaks change; semantics do not)"""
     return ast.unparse(ast.parse(src)) + "\n"
@@ -167,6 +213,9 @@ def neutral_variants(root: pathlib.Path):
         new, n = swap_if_else(src)
         if n >= 2:
             out.append((f"swap-if-else:{rel}", {rel: new}))
+        new, n = extract_tests(src)
+        if n >= 3:
+            out.append((f"extract-test-variable:{rel}", {rel: new}))
     return out
 
 
